@@ -879,7 +879,7 @@ def c20(tier, seed):
     return res
 
 
-MM_ALL = ["prologue", "psk", "rs_i", "rs_r", "rs_i_bit", "rs_r_bit"]
+MM_ALL = ["prologue", "prologue_z", "psk", "rs_i", "rs_r", "rs_i_bit", "rs_r_bit", "rs_i_neg", "rs_r_neg"]
 
 
 def c08(tier, seed):
